@@ -250,12 +250,16 @@ func (m *SegmentUInt64Map[V]) Clear() {
 	// For each segment
 	for _, segment := range m.segments {
 		segment.rwlock.Lock()
+		// Take off the shared count what this segment held, as
+		// ClearSegment does. Overwriting the count with zero after the
+		// sweep would also forget every key stored in a segment already
+		// swept: it stays reachable, is never counted, and the count
+		// goes negative when it is removed.
+		itemsCleared := int64(segment.data.Len())
 		segment.data.Clear()
 		segment.rwlock.Unlock()
+		m.count.Add(-itemsCleared)
 	}
-
-	// Reset count
-	m.count.Store(0)
 }
 
 // ClearSegment clears a specific segment - for radical eviction
